@@ -1,0 +1,29 @@
+// This Source Code Form is subject to the terms of the Mozilla Public
+// License, v. 2.0. If a copy of the MPL was not distributed with this
+// file, You can obtain one at http://mozilla.org/MPL/2.0/.
+
+//go:build verif
+
+package kv
+
+// Contracts for the deductive verifier in /verif (govc). Comment-only file: it
+// adds no code. Lines starting with //@ are parsed by govc; see /verif/DESIGN.md.
+
+// C19: labels and annotations are copy-on-write maps. Set never writes the map it was handed
+// (which may be shared with the store's copy or another reader); a change goes to a fresh map.
+//@ func (*KV).Set
+//@   props C19
+//@   requires [target] kv != nil
+//@   modifies kv.m
+//@   ensures [shared-map-untouched] forall k string :: (in(k, old(kv.m)) <==> old(in(k, kv.m))) && (old(in(k, kv.m)) ==> old(kv.m)[k] == old(kv.m[k]))
+//@   ensures [set] in(key, kv.m) && kv.m[key] == value
+//@   ensures [others-kept] forall k string :: k != key ==> ((in(k, kv.m) <==> old(in(k, kv.m))) && (old(in(k, kv.m)) ==> kv.m[k] == old(kv.m[k])))
+//@ func (*KV).Delete
+//@   props C19
+//@   requires [target] kv != nil
+//@   modifies kv.m
+//@   ensures [shared-map-untouched] forall k string :: (in(k, old(kv.m)) <==> old(in(k, kv.m))) && (old(in(k, kv.m)) ==> old(kv.m)[k] == old(kv.m[k]))
+//@   ensures [deleted] !in(key, kv.m)
+//@   loop #1
+//@     invariant [shared-map-untouched] kv != nil && kv.m == old(kv.m) && (forall k string :: (in(k, kv.m) <==> old(in(k, kv.m))) && (old(in(k, kv.m)) ==> kv.m[k] == old(kv.m[k])))
+//@     invariant [copy-is-private] fresh(kvCopy) && !in(key, kvCopy)
